@@ -5,7 +5,7 @@
    all the given settings" in terms of ansi_settings_at. *)
 From AS Require Import Base.
 From AS.Model Require Import Table Ops.
-From AS.Proofs Require Import TableProofs PadProofs FindProofs.
+From AS.Proofs Require Import TableProofs PadProofs FindProofs GenFns.
 
 (* ansi_settings_at(i) = [] outside 0..len-1; inside, the replay of the table up to i *)
 Theorem C17_out_of_range : forall (s : astr) (k : Z),
@@ -52,3 +52,10 @@ Theorem C17_find_start_real : forall (s : astr) (want : list str) (st en : optio
   a < length (base s) /\ has_all want (settings_at_nat s a) = true.
 Proof. exact find_settings_start_lt_len. Qed.
 Print Assumptions C17_find_start_real.
+
+(* the range normalisation (negative, omitted, too large bounds) IS the code's _slice_val_to_idx: its body
+   is re-translated from the Python source on every run (Gen/Fns.v) and shown equal to slice_idx *)
+Theorem C17_bounds_are_code : forall (len : nat) (v : option Z) (d : nat),
+  Z.of_nat (slice_idx len v d) = AS.Gen.Fns.gen_slice_val_to_idx (Z.of_nat len) v (Z.of_nat d).
+Proof. exact slice_idx_is_code. Qed.
+Print Assumptions C17_bounds_are_code.
